@@ -45,7 +45,7 @@ def guardLen (l : List α) : Op α → Except Exc (Option Int)
   | .remove _ => .ok (some (max ((l.length : Int) - 1) 0))
   | .clear => .ok (some 0)
   | .reverse => .ok none                                      -- inherited from TraitList
-  | .sort => .ok none
+  | .sort _ => .ok none
 
 /-- One `TraitListObject` method call. -/
 def TraitListObject.step (c : LenCfg) (E : Env α) (l : List α) (op : Op α) : Except Exc (Out α) :=
